@@ -14,6 +14,10 @@ Shapes == [
   mutual_tail_calls |-> [main |-> F("app", <<N("rcall", "g")>>), g |-> F("app", <<N("rcall", "main")>>)],
   loop_in_host_callback |-> [main |-> F("app", <<N("host", "cb"), N("ret", 0)>>), cb |-> F("app", <<N("work", 0), N("back", 1)>>)],
   loop_in_imported_function |-> [main |-> F("app", <<N("call", "spin"), N("ret", 0)>>), spin |-> F("lib", <<N("work", 0), N("back", 1)>>)],
+  \* re-entrant host functions: the callback loops under a derived context with its own deadline; the callback's stop is swallowed
+  \* and the caller then loops itself (it must be stopped as well, with the same exit code)
+  loop_in_host_callback_with_derived_deadline |-> [main |-> F("app", <<N("hostd", "cb"), N("ret", 0)>>), cb |-> F("app", <<N("work", 0), N("back", 1)>>)],
+  outer_loop_after_swallowed_stop |-> [main |-> F("app", <<N("hosts", "cb"), N("work", 0), N("back", 2)>>), cb |-> F("app", <<N("work", 0), N("back", 1)>>)],
   loop_two_levels_into_import |-> [main |-> F("app", <<N("call", "f"), N("ret", 0)>>), f |-> F("lib", <<N("call", "spin"), N("ret", 0)>>),
                                    spin |-> F("lib", <<N("work", 0), N("back", 1)>>)]
 ]
